@@ -292,17 +292,33 @@ def show_seq(seq):
 
 
 # ---------------------------------------------------------------------------------------------- model side
+def enc(t):
+    out = []
+    for ch in t:
+        o = ord(ch)
+        out.append(ch if 32 <= o < 126 and o != 34 else "~%06X" % o)
+    return "".join(out)
+
+
 def coq_text(t):
-    return "[" + ";".join(str(ord(c)) for c in t) + "]%N"
+    return '(dec "%s")' % enc(t)
 
 
-def coq_iouts(seq):
+def enc_term(t):
+    k = t[0]
+    if k == "var": return "V%d;" % t[1]
+    if k == "int": return "I%d;" % t[1]
+    if k == "atom": return "A%d;%s" % (len(t[1]), enc(t[1]))
+    if k == "cmp": return "C%d;%s%d;%s" % (len(t[1]), enc(t[1]), len(t[2]), "".join(enc_term(x) for x in t[2]))
+    return "F"      # floats, rationals: never equal to a model term
+
+
+def enc_outs(seq):
     xs = []
     for it in seq:
         if it == "eof": break
-        if it[0] == "t": xs.append("IT " + terms.to_coq(terms.number_vars([it[1]])[0]))
-        else: xs.append("IE")
-    return "[" + "; ".join(xs) + "]"
+        xs.append("T" + enc_term(terms.number_vars([it[1]])[0]) if it[0] == "t" else "E")
+    return '"%s"' % "".join(xs)
 
 
 def coq_eval_ns(prop, exprs, chunk=300, timeout=600, tag="verdicts"):
@@ -318,7 +334,7 @@ def coq_eval_ns(prop, exprs, chunk=300, timeout=600, tag="verdicts"):
             k, idxs = pending.pop(0)
             path = os.path.join(d, "s%d.v" % k)
             with open(path, "w") as f:
-                f.write("From Coq Require Import List ZArith NArith.\nImport ListNotations.\n" + IMPORTS + "\n")
+                f.write("From Coq Require Import List ZArith NArith String.\nImport ListNotations.\n" + IMPORTS + "\nOpen Scope string_scope.\n")
                 for j, i in enumerate(idxs):
                     f.write("Definition c%d : N := %s.\n" % (j, exprs[i]))
                 f.write("Definition all : list N := [%s].\nEval vm_compute in all.\n" % "; ".join("c%d" % j for j in range(len(idxs))))
@@ -355,7 +371,7 @@ def coq_show_many(prop, exprs, timeout=300):
     os.makedirs(d, exist_ok=True)
     path = os.path.join(d, "many.v")
     with open(path, "w") as f:
-        f.write("From Coq Require Import List ZArith NArith.\nImport ListNotations.\n" + IMPORTS + "\n")
+        f.write("From Coq Require Import List ZArith NArith String.\nImport ListNotations.\n" + IMPORTS + "\nOpen Scope string_scope.\n")
         for e in exprs:
             f.write("Eval vm_compute in (%s).\n" % e)
     rc, out = core.sh(["coqc", "-noglob", "-Q", core.COQ, "V", "-o", path + "o", path], timeout=timeout)
@@ -398,7 +414,7 @@ def classify(code, seq):
 
 def run(ctx):
     rng = ctx.rng
-    n = ctx.scale(5000, 120000)
+    n = ctx.scale(4500, 120000)
     corpus = ["a. b. c.\n", "foo('a\\zb', 1). bar. baz.\n", "foo(a b). bar.\n", "foo(a)) . bar.\n", "foo('abc). bar.\n", "foo. /* unterminated bar.\n",
               "foo. bar", "foo. 0'", "foo(\x00). bar.\n", "f(\x01). c.\n", "a.\n\n", "a. % c\n", "f(`abc`). c.\n", "f(\"ab\\zc\"). c.\n", "f(a.\n g(b). h.\n",
               "X = 'a\\x41\\b'. c.\n", "f('a\\\nb'). c.\n", "a :- b, c ; d -> e. x = y. 1 < 2. a* b+c.\n", "f(A,B,A,_). g(_X, Y, Y).\n", "", "f(\xa0). c.\n"]
@@ -415,11 +431,13 @@ def run(ctx):
     d = "/var/tmp/verif_c17_%d" % os.getpid()
     shutil.rmtree(d, ignore_errors=True)
     os.makedirs(d)
+    t_impl = time.time()
     try:
         impl = run_impl(ctx, d, [c[0] for c in cases], "t")
     finally:
         shutil.rmtree(d, ignore_errors=True)
 
+    t_impl = time.time() - t_impl
     failures, tie_breaks = [], []
     per_key = {}
 
@@ -431,33 +449,49 @@ def run(ctx):
     exprs, eidx = [], []
     vexprs, vidx = [], []
     dist = {"kinds": {}, "impl_errors": 0, "reads": 0, "agree": 0, "valid_texts": 0}
-    nontriv = 0
     for i, (t, kinds, exp) in enumerate(cases):
         for k in kinds:
             dist["kinds"][k] = dist["kinds"].get(k, 0) + 1
         o = impl[i]
         if exp is not None:
             dist["valid_texts"] += 1
-            vexprs.append("if check_valid %s [%s] then 0%%N else 1%%N" % (coq_text(t), "; ".join(terms.to_coq(x) for x in exp))); vidx.append(i)
+            vexprs.append('cvs "%s" "%s"' % (enc(t), "".join("T" + enc_term(x) for x in exp))); vidx.append(i)
         if o is None or o[0] == "fail":
             key, det = (o[1], o[2]) if o else ("reader:panic", "no result")
             fail(key, {"reader:panic": "the reader panicked or the process died", "reader:hang": "the reader did not return within the timeout"}.get(
                 key, "read_term raised something other than a syntax error or the driver failed"), t, det, "a term or syntax_error(_) for every read, then end_of_file")
-            nontriv += 1
             continue
         seq = o[1]
         dist["reads"] += len(seq)
         if any(isinstance(it, tuple) and it[0] == "e" for it in seq):
-            dist["impl_errors"] += 1; nontriv += 1
+            dist["impl_errors"] += 1
         if seq[-1] != "eof":
             last = seq[-2] if len(seq) >= 2 else "cap"
             kind = functor_of(last[1]) if isinstance(last, tuple) and last[0] == "e" else ("unbound-term" if isinstance(last, tuple) and last[1][0] == "var" else "term")
             fail("reader:no-progress:" + kind, "40 reads did not reach end_of_file: the reader stopped advancing (every read gives %s)" % kind, t,
                  show_seq(seq[:4]) + " ... x40", "at most %d outcomes then end_of_file" % (t.count(".") + 2))
             continue
-        exprs.append("verdict %s %s" % (coq_text(t), coq_iouts(seq))); eidx.append(i)
+        exprs.append('vps "%s" %s' % (enc(t), enc_outs(seq))); eidx.append(i)
 
-    vals, errs = coq_eval_ns(ctx.prop, exprs + vexprs, chunk=250)
+    pidx = [i for i in range(len(cases)) if i not in set(eidx)]
+    pexprs = ["profile %s" % coq_text(cases[i][0]) for i in pidx]
+    t_coq = time.time()
+    vals, errs = coq_eval_ns(ctx.prop, exprs + vexprs + pexprs, chunk=300)
+    ctx.notes.append("implementation run %.1fs, model evaluation %.1fs" % (t_impl, time.time() - t_coq))
+    nontriv = 0
+    dist["model"] = {"terms": 0, "lexical_errors": 0, "syntax_errors": 0, "unknown_clauses": 0, "texts_with_error": 0, "texts_resync_exercised": 0}
+    profs = [v >> 20 for v in vals[:len(exprs)] if v is not None and v != 4194303] + [v for v in vals[len(exprs) + len(vexprs):] if v is not None]
+    for j in range(len(exprs) + len(vexprs)):
+        if vals[j] == 4194303:
+            tie_breaks.append({"kind": "coq-eval", "what": "the outcome string could not be decoded by the model", "detail": (exprs + vexprs)[j][:600]}); vals[j] = None
+    for j in range(len(exprs)):
+        if vals[j] is not None: vals[j] &= (1 << 20) - 1
+    for pv in profs:
+        nt, nl, ns, nu, rs = pv % 32, (pv // 32) % 32, (pv // 1024) % 32, (pv // 32768) % 32, pv // 1048576
+        dm = dist["model"]
+        dm["terms"] += nt; dm["lexical_errors"] += nl; dm["syntax_errors"] += ns; dm["unknown_clauses"] += nu
+        if nl + ns: dm["texts_with_error"] += 1; nontriv += 1
+        if rs: dm["texts_resync_exercised"] += 1
     for _, e in errs:
         tie_breaks.append({"kind": "coq-eval", "what": "model evaluation shard failed", "detail": e})
     shows = []
@@ -493,6 +527,6 @@ def run(ctx):
                      "backslash, NUL/control/non-breaking space; token delete/duplicate/swap/insert; bad escapes, unterminated quotes and block comments, back-quoted strings, "
                      "end token deleted, trailing fragments such as 0' at the end, trailing layout) plus 8% token soup; each text is written to a file and read with "
                      "read_term/3 until end_of_file (cap 40 reads); the whole outcome sequence is compared with read_all of the Coq model (verdict). Unmutated texts are also "
-                     "compared with the generator's own terms (check_valid). Non-trivial = distinct text on which the implementation raised at least one syntax error "
-                     "(or failed outright)."),
+                     "compared with the generator's own terms (check_valid). Non-trivial = distinct text in which the reference reader finds at least one certain "
+                     "error (lexical or syntactic); distribution.model counts the texts in which a term is read after an error (resynchronisation exercised)."),
             "samples": samples, "distribution": dist, "failures": failures, "tie_breaks": tie_breaks}
